@@ -99,7 +99,7 @@ func modeCrash(r *common.Run, fl flavour) {
 		r.Case(true, "dbg")
 		return
 	}
-	cases, all := faultPoints(r, fl, "crash", r.Pick(8, 60), 1<<30)
+	cases, all := faultPoints(r, fl, "crash", r.Pick(16, 60), 1<<30)
 	reachedAll := true
 	for _, ci := range r.MyCases(len(cases)) {
 		c := cases[ci]
